@@ -533,17 +533,26 @@ def project(res, u, prop):
     of our obligations assumed that contract), never a violation of `prop`."""
     home = u.get("property")
 
-    def owner(ob_id):
+    # a function's `.body` obligation (callee preconditions, panics, proof steps) belongs to every property that one of the
+    # function's own clauses is tagged for — not only to the unit's home property
+    item_tags = {}
+    for o in res["obligations"]:
+        _, t = split_tag(o["id"])
+        item_tags.setdefault(o.get("item"), set()).update(t or [home])
+
+    def owner(ob_id, item=None):
         n, t = split_tag(ob_id)
+        if not t and ".body" in n and item in item_tags:
+            return n, sorted(item_tags[item] | {home})
         return n, (t or [home])
     obs = []
     for o in res["obligations"]:
-        n, own = owner(o["id"])
+        n, own = owner(o["id"], o.get("item"))
         if prop in own:
             obs.append(dict(o, id=n))
     fails = []
     for f in res["failures"]:
-        n, own = owner(f["obligation"])
+        n, own = owner(f["obligation"], f.get("item"))
         if prop in own:
             fails.append(dict(f, obligation=n))
         else:
